@@ -104,7 +104,8 @@ DetMonStep(m, E) ==
                  [m0 EXCEPT !.v = (IF E.err # "" THEN {"ANY:valid-motion-settings-rejected"} ELSE {})
                     \cup UNION { IF E.pairs[i][2] = E.pairs[i][3] THEN {}
                                  ELSE IF E.pairs[i][1] = "temp-thresh" /\ (\E j \in DOMAIN E.pairs : E.pairs[j][1] = "dynamic-threshold" /\ E.pairs[j][2] = "false")
-                                      THEN {"C07:configured-motion-settings-not-in-force"}      \* the fixed threshold itself
+                                      THEN {"C07:configured-motion-settings-not-in-force",      \* the fixed threshold itself: C07's rule and
+                                            "C08:configured-fixed-threshold-not-in-force"}      \* C08's 'at or below temp-thresh' refer to it
                                  ELSE IF E.pairs[i][1] \in {"dynamic-threshold", "temp-thresh", "temp-thresh-min", "temp-thresh-max"}
                                       THEN {"C15:configured-threshold-settings-not-in-force"}
                                  ELSE IF E.pairs[i][1] = "edge-pixels" THEN {"C08:configured-edge-pixels-not-in-force"}
